@@ -2,6 +2,8 @@ package lang
 
 import (
 	"fmt"
+	"os"
+	"path/filepath"
 	"strings"
 	"testing"
 
@@ -338,7 +340,8 @@ func TestC10Deterministic(t *testing.T) {
 			syntax.SetEnforcementLevel(syntax.EnforceError)
 			defer syntax.SetEnforcementLevel(syntax.EnforceDisable)
 		}
-		lay := &mrogen.Layout{Pick: func(n int) int { return rapid.IntRange(0, n-1).Draw(t, "lay") }, Comments: rapid.Bool().Draw(t, "comments")}
+		lay := &mrogen.Layout{Pick: func(n int) int { return rapid.IntRange(0, n-1).Draw(t, "lay") }, Comments: rapid.Bool().Draw(t, "comments"),
+			ShuffleCalls: rapid.IntRange(0, 2).Draw(t, "shuffleCalls") == 0}
 		src := prog.Source(lay)
 		first := artefacts(src)
 		for rep := 1; rep < 12; rep++ {
@@ -365,6 +368,98 @@ func TestC10Deterministic(t *testing.T) {
 		}
 		stats.Case("C10", wide || nerr >= 2, stats.Digest(src), classes, func() any {
 			return map[string]any{"kind": "pure", "errors_injected": nerr, "compile_error": stats.Trunc(first["compile-error"], 400), "source": stats.Trunc(src, 600)}
+		})
+	})
+}
+
+// TestC10FixIncludes: formatting with include fixing (mro format --includes)
+// of the same files gives the same bytes.  The declarations of a generated
+// program are spread over files in one directory - a types file, one file
+// per stage, names that do or do not contain the name of the main file - and
+// the main file (pipelines and call) lists none, some or all of the
+// includes it needs; a few calls may name stages no file declares (several
+// "could not find" errors at once).
+func TestC10FixIncludes(t *testing.T) {
+	root := os.Getenv("VERIF_WORK")
+	if root == "" {
+		root = os.TempDir()
+	}
+	root = filepath.Join(root, fmt.Sprintf("c10inc-%d", os.Getpid()))
+	os.MkdirAll(root, 0o755)
+	defer os.RemoveAll(root)
+	n := 0
+	rapid.Check(t, func(t *rapid.T) {
+		n++
+		dir := filepath.Join(root, fmt.Sprintf("f%d", n))
+		os.MkdirAll(dir, 0o755)
+		defer os.RemoveAll(dir)
+		prog := mrogen.GenProgram(t, c10Cfg())
+		base := rapid.SampledFrom([]string{"align", "x", "pipe", "main"}).Draw(t, "base")
+		typesFile := rapid.SampledFrom([]string{base + "_types.mro", "types.mro", "_" + base + ".mro"}).Draw(t, "typesFile")
+		write := func(name, text string) {
+			if err := os.WriteFile(filepath.Join(dir, name), []byte(text), 0o644); err != nil {
+				t.Fatalf("INFRA: %v", err)
+			}
+		}
+		write(typesFile, prog.U.Decls())
+		var stageFiles []string
+		for i, st := range prog.Stages {
+			var name string
+			switch rapid.IntRange(0, 3).Draw(t, "stageFileName") {
+			case 0:
+				name = fmt.Sprintf("%s_%s.mro", base, strings.ToLower(st.Name))
+			case 1:
+				name = fmt.Sprintf("%s.mro", strings.ToLower(st.Name))
+			case 2:
+				name = fmt.Sprintf("s%d_%s.mro", i, base)
+			default:
+				name = fmt.Sprintf("%s%d.mro", base, i)
+			}
+			stageFiles = append(stageFiles, name)
+			write(name, fmt.Sprintf("@include %q\n\n%s", typesFile, prog.StageText(st, nil)))
+		}
+		missing := rapid.IntRange(0, 3).Draw(t, "missingCallables")
+		if rapid.IntRange(0, 2).Draw(t, "noMissing") != 0 {
+			missing = 0
+		}
+		for i := 0; i < missing && len(prog.Pipelines) > 0; i++ {
+			pl := prog.Pipelines[rapid.IntRange(0, len(prog.Pipelines)-1).Draw(t, "missingIn")]
+			name := []string{"ZZ_GONE_B", "ZZ_GONE_A", "ZZ_GONE_C"}[i]
+			pl.Calls = append(pl.Calls, &mrogen.Call{Id: name, Callee: name, Bindings: []mrogen.Binding{{Param: "p", E: mrogen.Lit{V: nil, T: mrogen.Ty{Base: "int"}}}}})
+		}
+		var main strings.Builder
+		listed := 0
+		for _, f := range shuffled(t, append([]string{typesFile}, stageFiles...), "incOrder") {
+			if rapid.IntRange(0, 2).Draw(t, "listed") == 0 {
+				fmt.Fprintf(&main, "@include %q\n", f)
+				listed++
+			}
+		}
+		main.WriteString(prog.PipelinesAndCallText(nil))
+		mainPath := filepath.Join(dir, base+".mro")
+		write(base+".mro", main.String())
+		run := func() string {
+			var parser syntax.Parser
+			out, err := parser.FormatSrcBytes([]byte(main.String()), mainPath, true, []string{dir})
+			return fmt.Sprintf("%s|%v", out, err)
+		}
+		first := run()
+		for rep := 1; rep < 12; rep++ {
+			if again := run(); again != first {
+				fail(t, "C10", "nondeterministic:format-fix-includes", "formatting %s with include fixing differs between repetition 0 and %d:\n%s\n--- files: types %s, stages %v, %d includes listed, %d undeclared callables\n--- main file\n%s",
+					base+".mro", rep, firstDiff(first, again), typesFile, stageFiles, listed, missing, main.String())
+			}
+		}
+		classes := []string{"fix-includes"}
+		if missing >= 2 {
+			classes = append(classes, "fix-includes:several-undeclared")
+		}
+		if len(stageFiles)+1-listed >= 2 {
+			classes = append(classes, "fix-includes:several-added")
+		}
+		stats.Case("C10", len(stageFiles)+1-listed >= 2 || missing >= 2, stats.Digest(first, main.String()), classes, func() any {
+			return map[string]any{"kind": "format with include fixing", "main": base + ".mro", "files": append([]string{typesFile}, stageFiles...), "includes_listed": listed, "undeclared_callables": missing,
+				"result": stats.Trunc(first, 400)}
 		})
 	})
 }
